@@ -260,10 +260,15 @@ class Daemon:
         return rep
 
     def log_text(self):
-        try:
-            return open(self.logfile, errors="replace").read()
-        except OSError:
-            return ""
+        """what the daemon has logged so far: a foreground daemon (-F) logs to its stderr (a file in its directory), a
+        daemonized one to --log-file"""
+        txt = ""
+        for f in (os.path.join(self.dir, "stderr"), self.logfile):
+            try:
+                txt += open(f, errors="replace").read()
+            except OSError:
+                pass
+        return txt
 
 
 # ---------------------------------------------------------------------------
